@@ -449,6 +449,8 @@ def _metric_valued(prog, fi, e, depth=0) -> bool:
         return False
     if isinstance(e, ast.Attribute) and e.attr in METRIC_ATTRS:
         return True
+    if isinstance(e, ast.Call) and A.callee_name(e) == "getattr" and len(e.args) >= 2 and isinstance(e.args[1], ast.Constant) and e.args[1].value in METRIC_ATTRS:
+        return True
     if isinstance(e, ast.Call) and A.callee_name(e) in ("otRound", "round", "int", "_getVerticalOrigin") and (e.args or A.callee_name(e) == "_getVerticalOrigin"):
         return A.callee_name(e) == "_getVerticalOrigin" or _metric_valued(prog, fi, e.args[0], depth + 1)
     if isinstance(e, ast.IfExp):
@@ -726,6 +728,10 @@ def r0414(prog, chk):
 
 
 MUTANTS = [
+    M("vertical origin read with getattr and tested for truth: an explicit origin of 0 falls back to the ascender (seeded C04o)", "ufo2ft/outlineCompiler.py", "_getVerticalOrigin",
+      "hasattr(glyph, 'verticalOrigin') and glyph.verticalOrigin is not None", "getattr(glyph, 'verticalOrigin', None)", rule="R04.10"),
+    M("vertical origin read with getattr, tested against None", "ufo2ft/outlineCompiler.py", "_getVerticalOrigin",
+      "hasattr(glyph, 'verticalOrigin') and glyph.verticalOrigin is not None", "getattr(glyph, 'verticalOrigin', None) is not None", kind="equiv"),
     M("unicode ranges always computed from the character mapping, zeroed by the info-override pass (seeded C04n)", "ufo2ft/outlineCompiler.py", "BaseOutlineCompiler.setupTable_OS2",
       "if uniRanges is not None:\n    os2.ulUnicodeRange1 = intListToNum(uniRanges, 0, 32)\n    os2.ulUnicodeRange2 = intListToNum(uniRanges, 32, 32)\n    os2.ulUnicodeRange3 = intListToNum(uniRanges, 64, 32)\n    os2.ulUnicodeRange4 = intListToNum(uniRanges, 96, 32)\nelif 'cmap' in self.otf:\n    os2.recalcUnicodeRanges(self.otf)",
       "if uniRanges is not None:\n    os2.ulUnicodeRange1 = intListToNum(uniRanges, 0, 32)\n    os2.ulUnicodeRange2 = intListToNum(uniRanges, 32, 32)\n    os2.ulUnicodeRange3 = intListToNum(uniRanges, 64, 32)\n    os2.ulUnicodeRange4 = intListToNum(uniRanges, 96, 32)\nelse:\n    os2.setUnicodeRanges(intersectUnicodeRanges(self.unicodeToGlyphNameMapping.keys()))", rule="R04.14"),
